@@ -15,6 +15,7 @@ mod rx;
 mod utf8rx;
 mod c17;
 mod c18;
+mod c19;
 mod engine;
 mod model;
 mod report;
@@ -124,6 +125,13 @@ fn props() -> Vec<Prop> {
         gen: c18::gen_case,
         run: c18::run_case,
     }, Prop {
+        id: "C19",
+        rule: "three kinds: text = grammars without token references over vocabularies whose special tokens spell grammar text, every state of a seeded walk; refs = start: \"A\" REF \"B\" with REF one of <name>, <[id]>, <[a-b,...]>, <[^...]>, <[*]> and the mask at the reference position compared with the denoted id set (negation also via the Lean model); tok = marker-aware tokenisation of marker-free text, marked special names and numeric markers; distinct non-trivial = distinct (kind, grammar/reference/text)",
+        quick_cases: 60,
+        thorough_cases: 600,
+        gen: c19::gen_case,
+        run: c19::run_case,
+    }, Prop {
         id: "C17",
         rule: "case = (corpus grammar, synthetic vocabulary sized around a multiple of 32, random history); every step compares C and Rust APIs and runs llg_par_compute_mask for every destination length 0..mask+3 and three longer ones; distinct non-trivial = distinct (grammar, vocab size, mask words) triples with an engine mask",
         quick_cases: 24,
@@ -138,6 +146,20 @@ fn main() {
     if args.len() < 2 {
         eprintln!("usage: llgv <PROP> [--tier quick|thorough] [--seed N] [--out FILE] [--model EXE] [--replay FILE]");
         std::process::exit(2);
+    }
+    if args[1] == "probe19" {
+        let mut words: Vec<Vec<u8>> = (0..=255u8).map(|x| vec![x]).collect();
+        words.push(b"\xff<|end|>".to_vec());
+        words.push(vec![0xff]);
+        words.push(b"\xff<|eos|>".to_vec());
+        let eos = words.len() as u32 - 1;
+        let w = eng::World::new(words, eos, false, None).unwrap();
+        println!("greedy FF = {:?}", w.env.tok_trie().greedy_tokenize(&[0xff]));
+        let mut m = w.matcher(&engine::Gram::Lark("start: \"A\" <[3]> \"B\"\n".into()));
+        println!("m0 {:?}", eng::mask_of(&mut m));
+        m.consume_token(65).unwrap();
+        println!("m1 {:?}", eng::mask_of(&mut m));
+        return;
     }
     if args[1] == "probe" {
         // llgv probe <lark-file> <text>: feed text byte by byte, then report observables (debug aid)
